@@ -293,10 +293,11 @@ class Sim:
               or "unhandled error during disconnect" in msg or "unhandled error during handler update" in msg
               or "unhandled exception during startup" in msg or "unhandled exception during shutdown" in msg):
             self.log.append([1, self.last_ev])
-        elif "unable to encode packet" in msg:
-            self.log.append([9, "encode"])
+        elif "unable to send packet" in msg or "unable to encode packet" in msg:
+            ip, port = msg.split(" ")[0].rsplit(":", 1)
+            self.log.append([9, av((ip, int(port)))])
         else:
-            self.log.append([9, msg[:60]])
+            self.log.append([10, msg[:60]])
 
     # ---------------------------------------------------------------- observations
     def summary(self):
@@ -341,8 +342,9 @@ class Sim:
             self.feed(addr, raw)
         rand = list(rand)
         # enough fresh values behind the scripted ones: get_token always terminates
-        rand += [0x20000000 + self.fallback + i for i in range(8)]
-        self.fallback += 8
+        nfresh = 8 + 2 * len(batch)
+        rand += [0x20000000 + self.fallback + i for i in range(nfresh)]
+        self.fallback += nfresh
         self.rand, self.rand_used = rand, 0
         S.CLOCK.t = t
         self.t = t
